@@ -835,3 +835,18 @@ Proof.
       rewrite <- Qmult_assoc, Qmult_inv_r by lra. rewrite Qmult_1_r. exact H. }
     lra.
 Qed.
+
+(* the two LEFT JOINs of _cc_generate_neighbours_representation always find a partner (the self
+   loop), which is why Model/CC.v renders them as inner joins *)
+Lemma neighbours_left_joins_match nodes E v :
+  In v nodes ->
+  filter (fun e => v =? fst e) (edges_with_self_loops nodes E) <> [] /\
+  filter (fun e => v =? snd e) (edges_with_self_loops nodes E) <> [].
+Proof.
+  intros Hv. assert (H : In (v, v) (edges_with_self_loops nodes E)) by (apply ewsl_in; auto).
+  split; intros C.
+  - assert (In (v, v) (filter (fun e => v =? fst e) (edges_with_self_loops nodes E))) as X
+      by (apply filter_In; split; [exact H|apply Z.eqb_refl]). rewrite C in X. destruct X.
+  - assert (In (v, v) (filter (fun e => v =? snd e) (edges_with_self_loops nodes E))) as X
+      by (apply filter_In; split; [exact H|apply Z.eqb_refl]). rewrite C in X. destruct X.
+Qed.
